@@ -1,6 +1,7 @@
 package main
 
 import (
+	"regexp"
 	"encoding/json"
 	"fmt"
 	"go/types"
@@ -555,6 +556,7 @@ func loadWorldWithSpecs() (*World, error) {
 			w.UsedMirror = append(w.UsedMirror, m)
 		}
 	}
+	w.collectInterestingTypes()
 	if checks, err := loadChecks(); err == nil {
 		for _, c := range checks {
 			for _, r := range c.Roots {
@@ -601,4 +603,41 @@ func countInstrs(fn *ssa.Function) int {
 		n += len(b.Instrs)
 	}
 	return n
+}
+
+var typeisRe = regexp.MustCompile(`type(?:is|id)\([^"]*"([^"]+)"`)
+
+// collectInterestingTypes finds the concrete types named in typeis/typeid
+// expressions; interface values get "dynamic type is not T" facts for those
+// T that do not implement the value's static interface type.
+func (w *World) collectInterestingTypes() {
+	seen := map[string]bool{}
+	add := func(src string) {
+		for _, m := range typeisRe.FindAllStringSubmatch(src, -1) {
+			if seen[m[1]] {
+				continue
+			}
+			seen[m[1]] = true
+			if t, ok := w.typeByShortName(m[1]); ok {
+				w.InterestingTypes = append(w.InterestingTypes, t)
+			}
+		}
+	}
+	for _, ct := range w.Specs.Contracts {
+		for _, l := range [][]*Clause{ct.Requires, ct.Ensures, ct.Allows} {
+			for _, c := range l {
+				add(c.Src)
+			}
+		}
+		for _, l := range ct.LoopInv {
+			for _, c := range l {
+				add(c.Src)
+			}
+		}
+	}
+	for _, sf := range w.Specs.Funcs {
+		if sf.Body != nil {
+			add(sf.Body.Src)
+		}
+	}
 }
